@@ -10,7 +10,7 @@ use crate::{
     shared::util::itime::ITimestamp,
     tz::{Offset, TimeZone},
     util::{
-        rangeint::{self, Composite, RFrom, RInto},
+        rangeint::{self, Composite, RFrom, RInto, TryRFrom},
         round::increment,
         t::{
             self, FractionalNanosecond, NoUnits, NoUnits128, UnixMicroseconds,
@@ -3653,7 +3653,18 @@ impl TimestampRound {
             self.smallest,
             increment,
         );
-        let nanosecond = UnixNanoseconds::rfrom(rounded);
+        // Rounding can go beyond the minimum or maximum timestamp (e.g.,
+        // `Timestamp::MAX` rounded up to the next hour).
+        let nanosecond =
+            UnixNanoseconds::try_rfrom("nanoseconds", rounded).with_context(
+                || {
+                    err!(
+                        "rounding {timestamp} to nearest {unit} overflows \
+                         the supported range of timestamps",
+                        unit = self.smallest.singular(),
+                    )
+                },
+            )?;
         Ok(Timestamp::from_nanosecond_ranged(nanosecond))
     }
 }
